@@ -170,12 +170,15 @@ class Run:
 
         def proc_process(self, dt=1):
             run.on_call(self, 'process', (dt,), {})
-        self.ProcRoot = type('ProcRoot', (desper.Processor,), dict(ns, process=proc_process))
+        # every processor class of the scenario also derives from a plain mixin (no Processor): a query by
+        # it finds them through the same subclass walk
+        self.ProcMixin = type('ProcMixin', (), {})
+        self.ProcRoot = type('ProcRoot', (self.ProcMixin, desper.Processor), dict(ns, process=proc_process))
 
         def upd_process(self, dt=1):
             run.on_call(self, 'process', (dt,), {})
             desper.OnUpdateProcessor.process(self, dt)
-        self.UpdRoot = type('UpdRoot', (desper.OnUpdateProcessor,), dict(ns, process=upd_process))
+        self.UpdRoot = type('UpdRoot', (self.ProcMixin, desper.OnUpdateProcessor), dict(ns, process=upd_process))
 
         self.classes = []
         self.kinds = []
@@ -513,6 +516,11 @@ class Run:
         out.append('procs ' + q(procs_line))
         for t in ptys:
             out.append(f'gp {t} ' + q(lambda: gp_line(t)))
+
+        def gpx_line():
+            p = w.get_processor(self.ProcMixin)
+            return 'None' if p is None else str(p._oid)
+        out.append('gpx ' + q(gpx_line))
         out.append('pw ' + (','.join(str(o) for o in sorted(
             oid for oid, ob in self.objs.items() if desper.Processor in type(ob).__mro__ and ob.world is w)) or '-'))
         if self.gone:
@@ -564,6 +572,35 @@ class Run:
                 out = 'raised ' + exc_name(e)
             self.obs.append('res ' + out)
             self.obs.append('ret ' + ret)
+        # an OnUpdateProcessor taken out of this world and put into another one relays the frames of the world
+        # it is in now - to that world's listeners, once, and no longer to this one's (runner-level probe at
+        # the end of the history; the model knows one world)
+        if not self.direct and self.w is not None:
+            ups = [p for p in self.w.processors if desper.OnUpdateProcessor in type(p).__mro__]
+            saved, self.obs = self.obs, []
+            try:
+                for p in ups[:2]:
+                    got = {'new': [], 'old': []}
+
+                    def listener(key):
+                        ns = {'__events__': {'on_update': 'on_update'},
+                              'on_update': lambda s, dt, *a: got[key].append(dt)}
+                        return type('Listener', (), ns)()
+                    ln, lo = listener('new'), listener('old')
+                    w3 = desper.World()
+                    try:
+                        w3.add_handler(ln)
+                        self.w.add_handler(lo)
+                        self.w.remove_processor(type(p))
+                        w3.add_processor(p)
+                        w3.process(5)
+                        saved.append(f'migrate {p._oid} {len(got["new"])} {len(got["old"])}')
+                    except Exception:       # noqa  (scripted callbacks of the scenario may raise here too)
+                        saved.append(f'migrate {p._oid} skipped')
+                    finally:
+                        self.w.remove_handler(lo)
+            finally:
+                self.obs = saved
         # the program lets go of the world itself: a controller that is attached still knows its world
         ctrls = [(oid, ob) for oid, ob in self.objs.items() if ob is not None
                  and desper.Controller in type(ob).__mro__ and getattr(ob, 'entity', None) is not None
